@@ -264,6 +264,35 @@ func (p *pathRun) fromBytes(fr *frame, v value) bigval {
 			}
 		}
 		return p.mkBig(p.unmod(c.BV2Nat(acc)))
+	case *absCat:
+		// leading concrete zero bytes in front of one abstract string: its integer
+		last, isAbs := b.parts[len(b.parts)-1].(*absBytes)
+		zeros := isAbs
+		for _, part := range b.parts[:len(b.parts)-1] {
+			bs, ok := part.([]value)
+			if !ok {
+				zeros = false
+				break
+			}
+			for _, e := range bs {
+				if u, ok := e.(uint8); !ok || u != 0 {
+					zeros = false
+				}
+			}
+		}
+		if zeros {
+			return p.mkBig(last.t)
+		}
+		var flat []value
+		for _, part := range b.parts {
+			switch pt := part.(type) {
+			case []value:
+				flat = append(flat, pt...)
+			case *absBytes:
+				flat = append(flat, p.materialize(fr, pt)...)
+			}
+		}
+		return p.fromBytes(fr, flat)
 	}
 	panic(fmt.Sprintf("fromBytes: %T", v))
 }
